@@ -19,7 +19,7 @@ RULE = (
     "count; distinct = hash of all fields; non-trivial = at least 2 rows and 2 distinct treatment pairs"
 )
 ASSUMPTIONS = ["h5 files are compared through their loaded content, never byte-wise", "a change of the <U width of a string array on load is not a difference"]
-REQUIRED = {"supplied_mappings_with_permuted_ids": {"quick": 100, "thorough": 1000}, "plate_merges_before_save": {"quick": 200, "thorough": 2000}, "roundtrips_checked": {"quick": 2000, "thorough": 15000}, "superset_mapping_roundtrips": {"quick": 500, "thorough": 4000}, "space_roundtrips": {"quick": 600, "thorough": 5000}}
+REQUIRED = {"very_large_screens": {"quick": 2, "thorough": 6}, "supplied_mappings_with_permuted_ids": {"quick": 100, "thorough": 1000}, "plate_merges_before_save": {"quick": 200, "thorough": 2000}, "roundtrips_checked": {"quick": 2000, "thorough": 15000}, "superset_mapping_roundtrips": {"quick": 500, "thorough": 4000}, "space_roundtrips": {"quick": 600, "thorough": 5000}}
 N_CASES = {"quick": 2400, "thorough": 19200}
 
 WEIRD_OBS = [float("nan"), float("inf"), float("-inf"), -0.0, 0.0, 5e-324, 1e-310, -1.0, 1.0, 0.1 + 0.2, 1e308, np.float64(np.nextafter(1.0, 2.0))]
@@ -80,8 +80,24 @@ def run_shard(rec, tier, seed, shard, nshards):
         fn = os.path.join(tmp, "s.h5")
         for ci in range(n_cases):
             kind = str(rng.choice(["hostile", "merged", "holdout", "supplied", "zero"], p=[0.45, 0.1, 0.2, 0.2, 0.05]))
+            if ci == 0 and shard < (2 if tier == "quick" else 6):
+                kind = "very-large"
             try:
-                if kind == "hostile":
+                if kind == "very-large":
+                    # a screen of the size of a real library screen: more rows than any plausible internal block size,
+                    # plates numbered upwards (the longest plate names come last), a long non-ASCII sample name and a
+                    # long treatment name only in the last rows
+                    n_big, per = [(70000, 700), (135000, 1350), (66000, 660)][int(rng.integers(3))]  # 100 plates: 'p100' only at the end
+                    idx = np.arange(n_big)
+                    pn_ = np.array(["p%d" % (i // per + 1) for i in idx], dtype=str)
+                    sn_ = np.array(["s%d" % (i % 7) for i in idx], dtype=object)
+                    sn_[-40:] = "a-sample-with-a-much-longer-name-\u00e9\u03b2"
+                    tn_ = np.array([["d%d" % (i % 11), "e%d" % (i % 5)] for i in idx], dtype=object)
+                    tn_[-50:, 1] = "a-treatment-that-only-occurs-at-the-very-end"
+                    td_ = np.stack([1.0 + (idx % 3), 0.5 * (1 + idx % 2)], axis=1).astype(float)
+                    s = Screen(treatment_names=tn_.astype(str), treatment_doses=td_, sample_names=sn_.astype(str), plate_names=pn_, observations=rng.random(n_big), observation_mask=np.isin(pn_, ["p1", "p2"]))
+                    rec.count("very_large_screens")
+                elif kind == "hostile":
                     kw = gen.hostile_screen_kwargs(rng)
                     if "observations" in kw:
                         obs = kw["observations"].copy()
@@ -136,7 +152,7 @@ def run_shard(rec, tier, seed, shard, nshards):
                 rec.case(None, nontrivial=False)
                 rec.did_not_return("construct-" + kind, e)
                 continue
-            n_cycles = int(rng.integers(1, 5))
+            n_cycles = int(rng.integers(1, 5)) if kind != "very-large" else 1
             superset = len(s.treatment_mapping[0]) > len(set(zip([str(x) for x in s.treatment_names.ravel()], [float(x) for x in s.treatment_doses.ravel()]))) or len(s.sample_mapping[0]) > len(set(str(x) for x in s.sample_names))
             rec.case((screen_hash(s), n_cycles), nontrivial=s.size >= 2 and len(s.treatment_mapping[0]) >= 2)
             w = {"kind": kind, "size": int(s.size), "arity": int(s.treatment_arity), "control": s.control_treatment_name, "names": s.treatment_names.tolist()[:5], "doses": s.treatment_doses.tolist()[:5], "superset_mapping": bool(superset)}
